@@ -556,7 +556,7 @@ MUTANTS = [
     ("all-is-intersection", REL, "            names = lhs_fields | rhs_fields", "            names = lhs_fields & rhs_fields"),
     ("missing-lhs-skipped", REL, "            if name not in lhs_fields:\n                raise KeyError(\"Field {} not present in lhs\".format(name))", "            if name not in lhs_fields:\n                continue"),
     ("missing-rhs-check-dropped", REL, "            if name not in rhs_fields:\n                raise KeyError(\"Field {} not present in rhs\".format(name))\n", ""),
-    ("recursion-swapped", REL, "            lhs[name],  # type: ignore\n            rhs[name],  # type: ignore", "            rhs[name],  # type: ignore\n            lhs[name],  # type: ignore"),
+    ("recursion-swapped", REL, "            lhs[name],  # type: ignore\n            rhs_item,  # type: ignore", "            rhs_item,  # type: ignore\n            lhs[name],  # type: ignore"),
     ("leaf-direction", REL, "        yield lhs_val.eq(rhs_val)", "        yield rhs_val.eq(lhs_val)"),
     ("leaf-shape-compares-self", REL, "            if shape_of(lhs) != shape_of(rhs):", "            if shape_of(lhs) != shape_of(lhs):"),
     ("leaf-shape-check-inverted", REL, "            if shape_of(lhs) != shape_of(rhs):", "            if shape_of(lhs) == shape_of(rhs):"),
